@@ -371,3 +371,31 @@ func (w *World) assignKey(t *Ty) string {
 	}
 	return t.Str("")
 }
+
+// assignable mirrors goderive's notion of "same argument type"
+// (types.AssignableTo in either direction) for the types this generator
+// draws: identical, or one side is a named type whose underlying type is a
+// non-basic, non-struct type identical to the other (unnamed) side; channel
+// types that differ only in direction count as well.
+func (w *World) assignable(a, b *Ty) bool {
+	if a.Str("") == b.Str("") {
+		return true
+	}
+	ua, ub := w.under(a), w.under(b)
+	if ua != a && ua.K != "basic" && b.K != "named" && ua.Str("") == b.Str("") {
+		return true
+	}
+	if ub != b && ub.K != "basic" && a.K != "named" && ub.Str("") == a.Str("") {
+		return true
+	}
+	if a.K == "chan" && b.K == "chan" && a.Elem.Str("") == b.Elem.Str("") {
+		return true
+	}
+	if a.K == "func" && b.K == "func" {
+		// parameter names do not matter for identity
+		x, y := *a, *b
+		x.PNames, y.PNames = 1, 1
+		return x.Str("") == y.Str("")
+	}
+	return false
+}
